@@ -2,6 +2,9 @@ package main
 
 // Checks is the registry: which harness entry points decide which property, under which bounds.
 var Checks = []Check{
+	{ID: "C02", Entries: []Entry{
+		{Pkg: "node", Func: "VerifC02Send", What: "one local send by pid/name/alias with a fully symbolic priority to a target with symbolic state, mailbox bound (0/1/2), fill level and fallback configuration: success <=> queued exactly once (target queue chosen by priority, or fallback wrapped with recipient and tag); error => queued nowhere and truthful"},
+	}},
 	{ID: "C16", Entries: []Entry{
 		{Pkg: "net/edf", Func: "VerifC16Decode", Params: map[string]int64{"maxbytes": 5}, Thorough: map[string]int64{"maxbytes": 7},
 			What: "every byte string of length 0..N into the real edf.Decode: value or error, allocation in proportion, re-encode -> decode agrees"},
@@ -62,6 +65,7 @@ var Checks = []Check{
 			What: "real Pool.ProcessRun/forward on a fake process with symbolic per-attempt outcomes (delivered/unknown/terminated/full)"},
 	}},
 	{ID: "C03", Entries: []Entry{
+		{Pkg: "node", Func: "VerifC02Send", What: "priority -> queue for every value of the priority (Max->urgent, High->system, anything else->main) in RouteSendPID/RouteSendProcessID/RouteSendAlias, incl. the fallback copy"},
 		{Pkg: "act", Func: "VerifC03ActorOrder", Params: map[string]int64{"messages": 3}, Thorough: map[string]int64{"messages": 4},
 			What: "real Actor.ProcessRun dequeue loop over the four real queues under a symbolic class assignment vs stable sort by class"},
 	}},
